@@ -2,7 +2,39 @@ import AFV.Driver.Proto
 namespace AFV.Driver.C17
 open Lean AFV.Proto
 
-/-- Handler for property C17 requests (stub: not implemented yet). -/
-def handle (_req : Json) : Json := err "unimplemented"
+/-- (e,l) strictly dominated by (e',l'). -/
+def domBy (p q : Int × Int) : Bool := q.1 ≤ p.1 && q.2 ≤ p.2 && (q.1 != p.1 || q.2 != p.2)
+
+/-- Pareto front of (energy, latency) pairs (all-pairs definition). -/
+def front2 (rows : List (Int × Int)) : List (Int × Int) :=
+  rows.filter (fun p => !(rows.any (fun q => domBy p q)))
+
+def minOf (l : List Int) : Option Int := l.foldl (fun acc x => match acc with | none => some x | some a => some (min a x)) none
+
+private def pair? (j : Json) : Option (Int × Int) := do
+  let a ← intList? j
+  match a with
+  | [e, l] => some (e, l)
+  | _ => none
+
+/-- {"op":"minima","rows":[[E,L],…]} → minima of E, L, E·L over the FRONT of the rows, and over all rows. -/
+def handle (req : Json) : Json :=
+  match (field? req "op").bind getStr? with
+  | some "minima" =>
+    match (field? req "rows").bind getArr? with
+    | some arr =>
+      match arr.toList.mapM pair? with
+      | some rows =>
+        let f := front2 rows
+        match minOf (f.map (·.1)), minOf (f.map (·.2)), minOf (f.map (fun p => p.1 * p.2)),
+              minOf (rows.map (·.1)), minOf (rows.map (·.2)), minOf (rows.map (fun p => p.1 * p.2)) with
+        | some a, some b, some c, some a', some b', some c' =>
+          Json.mkObj [("minE", ofInt a), ("minL", ofInt b), ("minEDP", ofInt c),
+                      ("allMinE", ofInt a'), ("allMinL", ofInt b'), ("allMinEDP", ofInt c'),
+                      ("frontSize", ofNat f.length)]
+        | _, _, _, _, _, _ => err "empty"
+      | none => err "malformed"
+    | none => err "malformed"
+  | _ => err "bad-op"
 
 end AFV.Driver.C17
